@@ -95,6 +95,9 @@ class Frame:
         self.tysub = {}
 
 
+VISITED = set()     # body paths interpreted (entry or inlined) in this process: coverage map of the term engine
+
+
 class _Overlay(dict):
     """environment view that reads through to a base env and records writes separately (bindings of one or-pattern alternative)"""
     def __init__(self, base, rec):
@@ -177,6 +180,7 @@ class Interp:
         b = self.prog.body(path)
         if b is None:
             raise KeyError("no body for " + path)
+        VISITED.add(path)
         out = Outcome()
         fr = Frame(path, 0, out)
         params = []
@@ -1223,6 +1227,7 @@ class Interp:
         return t.startswith("&mut")
 
     def inline(self, b, key, c, args, places, e, env, fr):
+        VISITED.add(key)
         f2 = Frame(key, fr.depth + 1, fr.out)
         # generic substitution: names of the callee's generics -> concrete argument strings
         gen = b.get("all_generics")
